@@ -131,7 +131,7 @@ def encode_summary(rng, props, cp, layout="plain"):
 
 
 def encode_db(rng, ptype, cp, tables, summary, streams, long_refs=False, holes=0.0, dups=0.0, overcount=0.0, stale=0.0,
-              validation=True, shuffle_catalog=False, odd_int_sizes=False, layout="plain"):
+              validation=True, shuffle_catalog=False, odd_int_sizes=False, layout="plain", orphan_validation=()):
     """tables: {name: (cols, rows)} (rows need not be sorted) -> (clsid, [(entry name, bytes)], expected)"""
     pool = Pool(rng, cp, long_refs, holes, dups, overcount, stale)
     tnames = sorted(tables)
@@ -149,6 +149,9 @@ def encode_db(rng, ptype, cp, tables, summary, streams, long_refs=False, holes=0
             crows.append([n, i + 1, c["name"], b - 0x10000 if b >= 0x8000 else b])
             if validation:
                 vrows.append(validation_row(n, c))
+    # _Validation rows describing tables that are NOT in the file (real-world packages describe every standard table)
+    orphans = [validation_row(tn, c) for tn, c in orphan_validation] if validation else []
+    vrows += orphans
     if shuffle_catalog:
         rng.shuffle(crows)
         rng.shuffle(trows)
@@ -186,7 +189,7 @@ def encode_db(rng, ptype, cp, tables, summary, streams, long_refs=False, holes=0
         exp_tables["_Validation"] = VALIDATION_COLS
     expected = {"ptype": ptype, "db_cp": 65001 if cp == 0 else cp, "tables": exp_tables, "rows": expected_rows,
                 "catalog_rows": {"_Tables": trows, "_Columns": crows, "_Validation": vrows},
-                "streams": {n: list(b) for n, b in streams.items()}, "long_refs": long_refs}
+                "streams": {n: list(b) for n, b in streams.items()}, "long_refs": long_refs, "orphan_validation": orphans}
     return clsid_bytes(ptype), entries, expected
 
 
